@@ -94,6 +94,13 @@ class Folder(object):
             bt = unparse(base)
             if bt in ("_ns", "Format._ns", "ODML_NS", "odmlns") or bt.endswith("._ns"):
                 return NS(node.attr)
+            # any name bound to an rdflib Namespace(...) - class attribute, module constant, alias of one
+            try:
+                bv = self.fold(base, mod, cls, _depth + 1, env) if isinstance(base, (ast.Name, ast.Attribute)) else None
+            except Unfoldable:
+                bv = None
+            if isinstance(bv, str) and bv.startswith("NSBASE:"):
+                return NS(node.attr)
             if isinstance(base, ast.Name):
                 r = self.p.resolve_expr_to_symbol(mod, base)
                 if isinstance(r, ModuleInfo):
